@@ -29,11 +29,12 @@ def names(rng):
     return tys, subs
 
 
-def render_range(r, tys, subs, rng):
+def render_range(r, tys, subs, rng, scale=1):
     ty = "*" if r["ty"] == 0 else tys[r["ty"] - 1]
     sub = "*" if r["sub"] == 0 else subs[r["sub"] - 1]
+    # `scale` multiplies every range's parameter count alike (hundreds of parameters): the order between ranges is unchanged
     params = [rng.choice(["v=%d" % (i + 1), "charset=utf-8", "level=%d" % (i + 1)]) if i == 0 else "p%d=x" % i
-              for i in range(r["np"])]
+              for i in range(r["np"] * scale)]
     q = rng.choice(QTEXT[r["q"]])
     parts = list(params)
     if q is not None:
@@ -46,7 +47,8 @@ def render_accept(ranges, tys, subs, rng):
     """-> list of header values (several Accept headers), possibly with unparsable entries interleaved."""
     if not ranges:
         return []
-    items = [render_range(r, tys, subs, rng) for r in ranges]
+    scale = rng.choice([300, 520, 800]) if rng.chance(1, 12) else 1
+    items = [render_range(r, tys, subs, rng, scale) for r in ranges]
     if rng.chance(1, 3):
         items.insert(rng.below(len(items) + 1), rng.choice(JUNK))
     headers, cur = [], []
